@@ -327,3 +327,81 @@ def f_biased_texts(sus, cap=60000):
                             yield t
         if n > 3 * cap:
             break
+
+
+# --------------------------------------------------------------------------
+# Fortran: the loop of fortran_file_source
+# --------------------------------------------------------------------------
+_LOOP_NICE = {"\x00": "1", "\t": " ", "A": "a"}
+# when the loop can no longer be tabulated: prefixes that reach every kind of loop configuration x line kinds
+_LOOP_FALLBACK_PRE = [[], ["a &"], ["a&"], [" &"], ["&"], ["'a&"], ['"a&'], ["a &", " ! c"], ["a &", "#define X"],
+                      ["'a&", "#define X"], ["'"], ['"']]
+_LOOP_FALLBACK_KINDS = [["b"], [" b"], ["b "], ["! c"], [" ! c"], ["!$ c"], ["&"], [" &"], ["&b"], [" & b"], ["b &"], ["b&"],
+                        ["&b'"], ['&b"'], ["'b'"], ["'b&"], ["#define Y"], [" #define Y"], ["&#"], ["& #"], ["b\\", "b"], [""]]
+
+
+def _loop_show(lines):
+    return ["".join(_LOOP_NICE.get(c, c) for c in ln) for ln in lines]
+
+
+def f_loop_suspects(drv):
+    """-> {"error", "cells": [...], "targets": [(prefix lines, probe lines)]}: the probes of the regenerated loop table
+    (`tools/gen/cleaner.py: floop_tables`, executed on the checkout) on which the model's `fStep` (driver op
+    `floop_cells`, the functions `C17.floop_table_agrees` is about) gives something else than the running loop"""
+    G = gen()
+    out = {"error": None, "cells": [], "targets": []}
+    try:
+        T = G.loop_data(core.REPO)
+    except Exception as e:  # noqa
+        out["error"] = f"{type(e).__name__}: {e}"
+        out["targets"] = [(p, k) for p in _LOOP_FALLBACK_PRE for k in _LOOP_FALLBACK_KINDS]
+        return out
+
+    def ys(l):
+        return [[list(y[0]), [ord(c) for c in y[1]], bool(y[2])] for y in l]
+
+    cfgs = T["configs"]
+    rep = drv.ask({"op": "floop_cells", "configs": [
+        {"pre": ys(c["preC"]), "n": len(c["pre"]),
+         "probes": [{"c": ys(cs), "n": len(kind)} for kind, cs, _ in c["rows"]]} for c in cfgs]})
+
+    def note(what):
+        if len(out["cells"]) < 40:
+            out["cells"].append(what)
+
+    for c, m in zip(cfgs, rep["configs"]):
+        k = c["key"]
+        gk = [list(k[0][0]), list(k[0][1]), k[1], bool(k[2]), bool(k[3])]
+        if m["key"] != gk:
+            note(f"configuration after {_loop_show(c['pre'])}: code {gk} model {m['key']}")
+            out["targets"].append((c["pre"][:-1], c["pre"][-1:]))
+        for (kind, cs, e), me in zip(c["rows"], m["rows"]):
+            g = [bool(e[0]), ys(e[1]), [list(e[2][0]), list(e[2][1])], ys(e[3]), bool(e[4]), ys(e[5]), ys(e[6])]
+            if g != me:
+                note(f"fortran_file_source on {_loop_show(kind)} after {_loop_show(c['pre'])}: code {g} model {me}")
+                out["targets"].append((c["pre"], kind))
+    return out
+
+
+def f_loop_texts(sus, cap=40000):
+    """texts around the differing iterations: the prefix, the probe (as it is and extended by one character), then lines
+    that close the statement / the character context in every way"""
+    tails = [[], ["b"], [" b"], ["&b"], [" & b"], ["&"], ["! c", "b"], ["", "b"], ["&b'"], ['&b"'], ["b'"], ['b"'], ["'"], ['"'],
+             ["#define Y", "b"], ["#if 1", "&b", "#endif"], ["! c"], ["b &", "c"]]
+    seen = set()
+    n = 0
+    for pre, kind in sus["targets"]:
+        P, K = _loop_show(pre), _loop_show(kind)
+        variants = [K]
+        if len(K) == 1:
+            variants += [[K[0] + x] for x in "a &!'\""] + [[x + K[0]] for x in "a &'\""]
+        for heads in ([], ["x = 1"]):
+            for V in variants:
+                for tl in tails:
+                    t = "\n".join(heads + P + V + tl) + "\n"
+                    if t not in seen:
+                        seen.add(t)
+                        n += 1
+                        yield t
+        if n > cap:
+            break
